@@ -43,6 +43,7 @@ FamilySet == CASE Fam = "F1" -> {<<b>> : b \in F1Bodies}
                [] Fam = "TLR" -> TrimLR
                [] Fam = "HIDR" -> HiddenRight
                [] Fam = "OPTLR" -> OptLR
+               [] Fam = "LRN" -> LRNullPrefix
                [] Fam = "LRF" -> {<<b>> : b \in LRFreeBodies}
                [] Fam = "OPT" -> {<<b>> : b \in OptBodies}
                [] Fam = "LINES" -> {<<b>> : b \in LineBodies}
